@@ -197,6 +197,30 @@ def arg_form(rng, seq, float_ok=False):
     return b[::2][:len(a)]
 
 
+def punch_gap(a, rng):
+    """remove all ancestry over a random range of unit cells (a region with no edges at all: missing sequence); sites stay"""
+    L = a["L"]
+    if L < 2:
+        return dict(a, sites=[], muts=[])
+    g0 = rng.randrange(L)
+    g1 = rng.randint(g0 + 1, L)
+    if g0 == 0 and g1 == L:
+        g1 = L - 1
+    edges = []
+    for e in a["edges"]:
+        if e["left"] < g0:
+            edges.append(dict(e, right=min(e["right"], g0)))
+        if e["right"] > g1:
+            edges.append(dict(e, left=max(e["left"], g1)))
+    tm = a["time"]
+    edges.sort(key=lambda e: (tm[e["parent"]], e["parent"], e["child"], e["left"]))
+    b = dict(a, edges=edges)
+    # mutation parents may have been defined through edges that are gone: recompute them from scratch
+    sites, muts = a["sites"], a["muts"]
+    b["sites"], b["muts"] = [], []
+    return b
+
+
 def add_user_flags(tables, rng, p=0.35):
     """OR application-specific bits (the upper 16 bits of the flags word are reserved for users) into random node flags: being a sample
     is the NODE_IS_SAMPLE bit, not equality of the whole word, so nothing the library computes may depend on these bits"""
